@@ -34,9 +34,24 @@ class Ctx:
         self.ck, self.f, self.label, self.rulemap = ck, f, label, rulemap
         self.where = relpath("%s:%d" % (f.file, f.line))
 
+        self.pending = None
+
+    def defer(self):
+        """structure first: obligations are held back until the whole function has been recognised (flush); a shape that is
+        not recognised (Broken) then leaves no verdicts behind that were computed under a wrong reading of the code"""
+        self.pending = []
+
+    def flush(self):
+        pend, self.pending = self.pending or [], None
+        for a in pend:
+            self.ck.ob(*a[0], **a[1])
+
     def ob(self, cond, rule, construct, ok, bad, where=None):
         r = self.rulemap.get(rule)
         if r is None:
+            return cond
+        if self.pending is not None:
+            self.pending.append(((cond, r, self.f.name, "%s[%s]" % (construct, self.label), ok, bad), {"where": where or self.where}))
             return cond
         return self.ck.ob(cond, r, self.f.name, "%s[%s]" % (construct, self.label), ok, bad, where=where or self.where)
 
@@ -202,6 +217,7 @@ def check_setup(ck, mod, ks, label, rulemap):
     klen = int(ks)
     f = mod.fn("tinyjambu_setup_%s" % ks)
     c = Ctx(ck, f, label, rulemap)
+    c.defer()
     di = f.param_index("domain")
     ex, ps = run_paths(f, klen, word_args=[di] if di is not None else [])
     rets = [p for p in ps if p.end[0] == "ret"]
@@ -279,6 +295,7 @@ def check_absorb(ck, mod, ks, label, rulemap):
     klen = int(ks)
     f = mod.fn("tinyjambu_absorb_%s" % ks)
     c = Ctx(ck, f, label, rulemap)
+    c.defer()
     di = f.param_index("domain")
     ri = f.param_index("rounds")
     ex, ps = run_paths(f, klen, word_args=[di])
@@ -394,6 +411,7 @@ def check_absorb(ck, mod, ks, label, rulemap):
     if seen != {0, 1, 2, 3, 4}:
         raise Broken("%s: the path classes found (%s) are not the residues 0..3 plus the full block: unrecognised shape" % (f.name, sorted(seen)))
     c.ob(True, "ADVANCE", "absorb-classes", "all residue classes 0..3 and the full block are handled", "")
+    c.flush()
     return n + 1
 
 
@@ -413,6 +431,7 @@ def check_cipher(ck, mod, f, label, rulemap):
     ex, ps = run_paths(f, klen)
     if narrowings(c, f, ps):
         return 1
+    c.defer()
     heads = data_loops(f, ps)
     LI = {}
     idx_style = False
@@ -809,6 +828,7 @@ def check_cipher(ck, mod, f, label, rulemap):
     if seen != {0, 1, 2, 3} | {("iter", h_) for h_ in heads}:
         raise Broken("%s: the path classes found (%s) are not the residues 0..3 plus one generic iteration per data loop: unrecognised shape" % (f.name, sorted(seen, key=repr)))
     c.ob(True, "ADVANCE", "classes", "all residues 0..3 and the generic iteration of every data loop are handled", "")
+    c.flush()
     return n + 1
 
 
